@@ -15,6 +15,10 @@ static const char *HQ_NAMES[] = {"locate", "extract", "locatePrefix", "extractPr
 static inline std::string hq_str(const HQ &q) {
   return std::string(HQ_NAMES[q.type]) + "(" + (q.type == 1 || q.type == 6 ? std::to_string(q.id) : obs::esc(q.arg, 40)) + ")";
 }
+// identity of a query (full argument, never truncated)
+static inline std::string hq_key(const HQ &q) {
+  return std::string(HQ_NAMES[q.type]) + "\x01" + (q.type == 1 || q.type == 6 ? std::to_string(q.id) : q.arg);
+}
 
 static inline std::string strs_canon(const std::vector<StrItem> &v, bool ordered) {
   std::vector<std::string> s;
@@ -175,13 +179,13 @@ static inline void op_history(Ctx &c, const std::string &img) {
     step_open(r.below(open.size()));
   // repeated queries must repeat their answers
   for (size_t i = 0; i < pool.size(); i++) {
-    std::string key = hq_str(pool[i]);
+    std::string key = hq_key(pool[i]);
     auto it = first_answer.find(key);
     if (it == first_answer.end()) first_answer[key] = ansA[i];
     else {
       obs::count("eval.history_repeat");
       if (it->second != ansA[i])
-        obs::violation("C14", "history", "history-dependent", HQ_NAMES[pool[i].type], key + " answered " + obs::esc(it->second, 60) + " first and " + obs::esc(ansA[i], 60) + " later (call " + std::to_string(i) + ")");
+        obs::violation("C14", "history", "history-dependent", HQ_NAMES[pool[i].type], hq_str(pool[i]) + " answered " + obs::esc(it->second, 60) + " first and " + obs::esc(ansA[i], 60) + " later (call " + std::to_string(i) + ")");
     }
   }
   // ---- (b) permuted order on a second copy
